@@ -3,6 +3,6 @@
 # Results: build/final_<seed>.json ; summary: harness/seedrecord.py
 cd "$(dirname "$0")/.."
 rm -f build/final_*.json build/final_done
-( ls -d seeded/C??-b? | sed 's/$/ --benign/'; ls -d seeded/C??-1 seeded/C??-2 seeded/C??-r2-? seeded/C??-r3-? seeded/C??-r4-? seeded/C??-r5-? ) \
+( ls -d seeded/C??-b? seeded/C??-c? | sed 's/$/ --benign/'; ls -d seeded/C??-1 seeded/C??-2 seeded/C??-r2-? seeded/C??-r3-? seeded/C??-r4-? seeded/C??-r5-? seeded/C??-r6-? ) \
   | xargs -P ${1:-5} -L 1 sh -c 's=$(basename $0); /venv/bin/python harness/seedtest.py $0 $1 > build/final_$s.json 2>&1'
 echo done > build/final_done
